@@ -22,7 +22,8 @@ def run(tier):
         'ValueError; minisat must be driven file-in/file-out and the standard solvers through stdin; no temporary file is left. '
         'Two harnesses keep the model bits, verdict and layout symbolic through the (traced) output parser; the others are enumerative.')
     run.bounds = ['8 formulas with <=3 variables incl. zero variables, empty clause, unused variables, unsatisfiable', 'all models (<=8) per formula', '3 answer layouts x comments x trailing zero']
-    run.outside = ['real solver processes, timeouts, signals', 'solver output in other encodings than ASCII', 'formulas with more than 3 variables']
+    run.bounds += ['3 formulas with 10, 11, 20 variables (answers mention 10 / -10 / 20 at the end of a line)', 'the list returned by supported_satsolvers() is sorted, truncated and extended by the caller before the calls']
+    run.outside = ['real solver processes, timeouts, signals', 'solver output in other encodings than ASCII', 'formulas with more than 20 variables']
     run.assumptions = ['stub: cnfgen.utils.solver.subprocess.Popen -> fake solver (sound: emits only models / UNSAT only when unsatisfiable)',
                        'stub: cnfgen.utils.solver.tempfile/os/open -> in-memory file system that records live temporary files',
                        'glucose, march, sat4j: whatever convention the bridge uses is accepted (documentation is silent or contradictory)']
